@@ -556,8 +556,8 @@ theorem ordered_out (s : State) (op : Op) (h : Inv s) : (step s op).2 = ospecOut
     cases s.nodes[i]? <;> rfl
   | edgeToIndex a b =>
     simp only [step, ospecOut, oabs]
-    rw [show s.edges.map (·.1) = IMap.keys s.edges from rfl, pos_keys]
-    cases IMap.indexOf? s.edges (a, b) <;> rfl
+    rw [show s.edges.map (·.1) = IMap.keys s.edges from rfl, pos_keys, okey_eq]
+    cases IMap.indexOf? s.edges (edgeKey s.directed a b) <;> rfl
   | edgeFromIndex i => rfl
   | intoGraph =>
     simp only [step, ospecOut, intoGraph, oabs, nodesOf, pos_keys]
